@@ -21,6 +21,7 @@ import vlib
 THEOREMS = [
     "order_sorted_perm", "order_limit_slice", "topn_eq_order_limit", "limit_count", "limit_subset",
     "absent_limit", "limit_exec_spec", "topn_absent_limit_panics", "merge_iter_sorted", "memtable_sorted",
+    "compaction_sorted_perm",
     "concat_scan_sorted_iff", "two_rowsets_witness", "scan_contract_unsound", "order_analysis_sound",
     "useless_order_sound_partial", "useless_order_unsound",
 ]
@@ -273,7 +274,7 @@ def judge_case(r, T, prop):
         T.mvi["disagree"] += 1
         T.corr.append(("layout", "case %d: stored layout differs (memtable order / delete vectors): impl=%s model=%s" % (cid, lay_i, lay_m),
                        {"case": r["line"], "impl": lay_i, "model": lay_m}))
-        return
+        # keep judging: the model-free oracle may turn the broken tie into a concrete failing query
     answers = [x for x in ans[2:] if isinstance(x, list) and x[0] == "ans"]
     scans_m = [x for x in ans[2:] if isinstance(x, list) and x[0] == "sc"]
     results = field(obs, "results") or []
